@@ -184,6 +184,88 @@ theorem tx_conserves {db : Db} {L : List Addr} {s0 s1 s2 s3 : JState} {spec : Na
     omega
 
 
+/-- the transaction-level law with the *local* no-saturation conditions instead of the bound on the
+total (what the driver evaluates on the observed balances): the two credits fit in 256 bits -/
+theorem tx_conserves_local {db : Db} {L : List Addr} {s0 s1 s2 s3 : JState} {spec : Nat} {e : FeeEnv}
+    {rewards : Bool} {remaining spent refunded burntExec : Nat}
+    (hn : L.Nodup) (hcL : e.caller ∈ L) (hbL : e.coinbase ∈ L)
+    (hok0 : BalOk db s0)
+    (hfitR : bal db s2 e.caller + specReimbursement e remaining refunded < W)
+    (hfitC : bal db s2 e.coinbase + (if e.coinbase = e.caller then specReimbursement e remaining refunded else 0)
+      + specReward spec e spent refunded < W)
+    (hval : Validated db s0 spec e) (hgas : GasOk e remaining spent refunded)
+    (hded : deductCaller db s0 spec e = some s1)
+    (hexec : total L db s2 + burntExec = total L db s1)
+    (hpost : postExecution db s2 spec e rewards remaining spent refunded = some s3) :
+    total L db s3 + burntPerGas spec e * (spent - refunded) + dataFee spec e + burntExec
+      + (if rewards then 0 else coinbaseGasPrice spec e * (spent - refunded)) = total L db s0 := by
+  obtain ⟨hg1, hg2, hg3⟩ := hgas
+  obtain ⟨c, hc, b1, _⟩ := deductCaller_bal hded
+  have hceq := gasCost_validated hok0 hval hc
+  have hcle : c ≤ bal db s0 e.caller := by rw [hceq]; exact hval.1
+  have hb0 := hok0 e.caller
+  have t1 : total L db s1 + c = total L db s0 := by
+    have := sumOver_upd (bal db s0) (U256.saturatingSub (bal db s0 e.caller) c) hn hcL
+    simp only [total, b1]; unfold U256.saturatingSub at this ⊢; omega
+  have hE := coinbaseGasPrice_le spec e
+  unfold specReimbursement at hfitR hfitC
+  unfold specReward at hfitC
+  generalize hEd : effectiveGasPrice e = E at *
+  generalize hCd : coinbaseGasPrice spec e = C at *
+  generalize hDd : dataFee spec e = D at *
+  have hbp : burntPerGas spec e = E - C := by unfold burntPerGas; rw [hEd, hCd]
+  rw [hbp]
+  have p1 : E * (remaining + refunded) + E * (spent - refunded) = e.gasLimit * E := by
+    rw [← Nat.mul_add, Nat.mul_comm]; congr 1; omega
+  have p2 : C * (spent - refunded) + (E - C) * (spent - refunded) = E * (spent - refunded) := by
+    rw [← Nat.add_mul]; congr 1; omega
+  simp only [total] at t1 hexec ⊢
+  unfold postExecution at hpost
+  simp only [bind, Option.bind_eq_some_iff] at hpost
+  obtain ⟨s2', hr, hpost⟩ := hpost
+  obtain ⟨b2, _⟩ := reimburseCaller_bal hr
+  have hR : reimbursement e remaining refunded = E * (remaining + refunded) := by
+    unfold reimbursement
+    rw [hEd, wadd64_eq (by omega), wmul_eq]
+    generalize E * (remaining + refunded) = P1 at *
+    generalize E * (spent - refunded) = P2 at *
+    generalize e.gasLimit * E = P0 at *
+    omega
+  rw [hR] at b2
+  generalize hP1 : E * (remaining + refunded) = P1 at *
+  generalize hP2 : E * (spent - refunded) = P2 at *
+  generalize hP3 : C * (spent - refunded) = P3 at *
+  generalize hP4 : (E - C) * (spent - refunded) = P4 at *
+  generalize hP0 : e.gasLimit * E = P0 at *
+  have t2 : sumOver L (bal db s2') = sumOver L (bal db s2) + P1 := by
+    have := sumOver_upd (bal db s2) (U256.saturatingAdd (bal db s2 e.caller) P1) hn hcL
+    rw [satAdd_eq hfitR] at this
+    rw [b2, satAdd_eq hfitR]; omega
+  split at hpost
+  · rename_i hrw
+    obtain ⟨b3, _⟩ := rewardBeneficiary_bal hpost
+    have hRw : reward spec e spent refunded = P3 := by
+      unfold reward
+      rw [hCd, wsub64_eq (by omega) hg2, wmul_eq (by omega), hP3]
+    rw [hRw] at b3
+    have hcb : bal db s2' e.coinbase + P3 < W := by
+      rw [b2]
+      by_cases h : e.coinbase = e.caller
+      · rw [if_pos h] at hfitC
+        rw [h] at hfitC ⊢
+        rw [upd_same, satAdd_eq hfitR]; omega
+      · rw [if_neg h] at hfitC
+        rw [upd_other _ _ h]; omega
+    have := sumOver_upd (bal db s2') (U256.saturatingAdd (bal db s2' e.coinbase) P3) hn hbL
+    rw [satAdd_eq hcb] at this
+    rw [b3, satAdd_eq hcb]
+    rw [if_pos hrw]
+    omega
+  · rename_i hrw
+    cases hpost
+    rw [if_neg hrw]
+    omega
+
 theorem total_of_same {db : Db} {L : List Addr} {s s' : JState} (h : Same db s s') : total L db s' = total L db s := by
   simp only [total, h.1]
 
